@@ -186,3 +186,41 @@ def tol(stride, H, W, max_hw, scale):
     if scale != 1.0:
         allow += max(mh * scale - int(mh * scale), mw * scale - int(mw * scale))
     return (0.5 * stride + allow) / (scale * eff)
+
+
+KEY_BORDER = "integral-refinement-biased-when-patch-truncated-by-map-border"
+
+
+def integral_border_model(ent, pts_orig, stride, sigma, patch=5):
+    """What a decoder that takes the arg-max cell of the ideal Gaussian and refines it by the centre of mass of a
+    patch x patch window (zero outside the map) would answer, in original-image coordinates.
+
+    ent: log entry of the oracle network for the frame (shape of the received image and the fitted axis-aligned map).
+    Returns (model (n,2), truncated (n,) bool): truncated = the window around the arg-max cell sticks out of the map."""
+    H, W = ent["shape"]
+    ax, ay = ent["a"]
+    bx, by = ent["b"]
+    cx, cy = (bx + 0.5) / ax - 0.5, (by + 0.5) / ay - 0.5
+    pts = np.asarray(pts_orig, float).reshape(-1, 2)
+    gh, gw = H // stride, W // stride
+    ys, xs = np.arange(gh) * stride, np.arange(gw) * stride
+    h = patch // 2
+    off = np.arange(patch) - (patch - 1) / 2.0
+    model = np.full_like(pts, np.nan)
+    trunc = np.zeros(len(pts), bool)
+    for k, (x, y) in enumerate(pts):
+        if not (np.isfinite(x) and np.isfinite(y)):
+            continue
+        xr, yr = x / ax - cx, y / ay - cy  # position in the received image
+        m = np.exp(-((xs[None] - xr) ** 2 + (ys[:, None] - yr) ** 2) / (2 * (sigma * stride) ** 2))
+        iy, ix = np.unravel_index(int(np.argmax(m)), m.shape)
+        P = np.zeros((patch, patch))
+        for dy in range(-h, patch - h):
+            for dx in range(-h, patch - h):
+                if 0 <= iy + dy < gh and 0 <= ix + dx < gw:
+                    P[dy + h, dx + h] = m[iy + dy, ix + dx]
+        trunc[k] = iy - h < 0 or ix - h < 0 or iy + (patch - 1 - h) >= gh or ix + (patch - 1 - h) >= gw
+        qx = (ix + (P.sum(0) * off).sum() / P.sum()) * stride
+        qy = (iy + (P.sum(1) * off).sum() / P.sum()) * stride
+        model[k] = [(qx + cx) * ax, (qy + cy) * ay]
+    return model, trunc
